@@ -76,6 +76,9 @@ def run_case(case):
     viols, errs = [], {}
     evals = 0
     rs = cm.rshells(shells)
+    rkind = cm.REPS[(len(orders) + sum(len(s_["e"]) for s_ in shells)) % len(cm.REPS)]  # representation / dtype of the transform
+    if T is not None:
+        T = cm.rep_values(T, rkind, scale=2.0)
     dbl = [tuple(2 * x for x in o) for o in orders]
     ref_all = gto.moments(rs, origin, orders + dbl)
     if T is not None:
@@ -84,7 +87,7 @@ def run_case(case):
     ref = ref_all[:, :, :D]
     norm2 = np.abs(np.einsum("iid->id", ref_all[:, :, D:]))
     scale = np.sqrt(np.sqrt(norm2[:, None, :] * norm2[None, :, :]))
-    kw = {} if T is None else {"transform": T.copy()}
+    kw = {} if T is None else {"transform": cm.rep_typed(T, rkind)}
     M = cm.call(moment_integral, cm.build(shells), origin.copy(), np.array(orders, dtype=int), **kw)
     cm.compare(M, ref, TOL, "moment_integral", "moment", viols, errs, scale=scale + 1e-300, ls=cm.ls_of(shells), orders=[list(o) for o in orders])
     evals += 1
@@ -126,7 +129,7 @@ def run_case(case):
                     if isinstance(x, cm.Raised):
                         viols.append(cm.unexpected(x, w))
     nontrivial = any(sum(o) >= 1 for o in orders) and any(s["l"] >= 1 for s in shells)
-    return {"evals": evals, "nontrivial": bool(nontrivial), "classes": case.get("classes", []), "errs": errs, "violations": viols}
+    return {"evals": evals, "nontrivial": bool(nontrivial), "classes": case.get("classes", []) + ["rep:" + rkind], "errs": errs, "violations": viols}
 
 
 def summarize(cases, results, counts, lists, tier):
